@@ -1,4 +1,5 @@
 #![recursion_limit = "1024"]
+mod alloc;
 mod c01;
 mod c10;
 mod deco;
@@ -14,6 +15,9 @@ mod sched;
 mod seeds;
 
 use std::process::exit;
+
+#[global_allocator]
+static GLOBAL: alloc::Counting = alloc::Counting;
 
 fn usage() -> ! {
     eprintln!(
@@ -47,6 +51,17 @@ fn main() {
         "selftest" => driver::cmd_selftest(&args[2..]),
         "skips" => {
             driver::debug_skips(&args[2], args[3].parse().unwrap(), args[4].parse().unwrap(), args[5].parse().unwrap());
+            0
+        }
+        "mem" => {
+            driver::debug_mem(
+                &args[2],
+                args[3].parse().unwrap(),
+                args[4].parse().unwrap(),
+                args[5].parse().unwrap(),
+                args.get(6).map(|s| s == "quick").unwrap_or(false),
+                args.get(7).and_then(|s| s.parse().ok()).unwrap_or(0),
+            );
             0
         }
         "panics" => {
